@@ -28,6 +28,80 @@ class Ctx(object):
         self.prop = prop
         self._spec = {}
         self.memo = {}
+        self.ce.abstract_hook = self._abstract_table
+
+    # -- computed module-level tables ----------------------------------------------------
+    def _abstract_table(self, defmod, defname, node):
+        """Value of a module-level binding that is not a literal: abstract interpretation of the
+        module's top-level statements (no execution), reified when every key, guard and value
+        folded to a constant.  None when it did not."""
+        from .consteval import Dec, Flt, ODict, TDict, TList, TTuple
+        from .interp import Ref
+        from .interp_stmt import Evaluator
+        from .terms import Const, P, Space
+
+        if defname is None:
+            return None
+        key = ("abstract_module", defmod.name)
+        if key not in self.memo:
+            ev = Evaluator(self, Space())
+            st = ev.new_state()
+            env = ev.module_env(st, defmod)
+            self.memo[key] = (ev, st, env)
+        ev, st, env = self.memo[key]
+        v = st.heap[env.id].vars.get(defname)
+
+        def truth(g):
+            return isinstance(g, Const) and g.v is True
+
+        def reify(x):
+            if isinstance(x, Const):
+                return x.v
+            if isinstance(x, P) and x.is_const():
+                q = x.const_value()
+                if x.kind in (None, "int") and q.denominator == 1:
+                    return int(q)
+                if x.kind == "dec":
+                    return Dec(q)
+                if x.kind == "flt":
+                    return Flt(q)
+                raise ValueError("constant of mixed kind")
+            if isinstance(x, Ref) and x.id in st.heap:
+                o = st.heap[x.id]
+                if o.kind == "map":
+                    d = ODict() if o.ordered else TDict()
+                    d.node = node
+                    d.module = defmod
+                    for k in o.order:
+                        present, val = o.entries[k]
+                        if not truth(present):
+                            raise ValueError("conditional entry")
+                        kk = k.v if isinstance(k, Const) else k
+                        d[kk] = reify(val)
+                        d.key_nodes[kk] = node
+                        d.val_nodes[kk] = node
+                    return d
+                if o.kind == "list":
+                    items = []
+                    for g, val in o.items:
+                        if not truth(g):
+                            raise ValueError("conditional element")
+                        items.append(reify(val))
+                    l = TList(items)
+                    l.node = node
+                    l.module = defmod
+                    l.elt_nodes = [node] * len(items)
+                    return l
+            if type(x).__name__ == "TupleVal":
+                return TTuple(reify(e) for e in x.items)
+            raise ValueError("not constant: %r" % (x,))
+
+        if v is None:
+            return None
+        try:
+            return reify(v)
+        except ValueError:
+            return None
 
     def spec(self, name):
         if name not in self._spec:
